@@ -80,26 +80,32 @@ def includeVerticalTabInSpaceClass (s : Bytes) : Bytes := includeVTAux s.length 
 def isEscaped (input : Bytes) (position : Nat) : Bool :=
   ((input.take position).reverse.takeWhile (· == '\\')).length % 2 == 1
 
-/-- `findGroupBodyEnd(input, groupBodyStart)`: index of the last byte of the group body and whether
-    the body has an alternation on its top level. Running off the end is a runtime fault. -/
-def findGroupBodyEndAux (input : Bytes) : Nat → (index parens : Nat) → (alt : Bool) → Except Fault (Nat × Bool)
-  | 0, _, _, _ => .error .runtime
-  | f + 1, index, parens, alt =>
-    if parens == 0 then .ok (index - 2, alt)
-    else
-      match input[index]? with
-      | none => .error .runtime
-      | some ch =>
-        if ch == '(' then
-          findGroupBodyEndAux input f (index + 1) (if isEscaped input index then parens else parens + 1) alt
-        else if ch == ')' then
-          findGroupBodyEndAux input f (index + 1) (if isEscaped input index then parens else parens - 1) alt
-        else if ch == '|' then
-          findGroupBodyEndAux input f (index + 1) parens (alt || parens == 1)
-        else findGroupBodyEndAux input f (index + 1) parens alt
+/-- is the character after `c` escaped, when `c` itself is (`esc`) or is not escaped?
+    (an odd run of backslashes directly before a position escapes it) -/
+def nextEsc (esc : Bool) (c : Char) : Bool := if c == '\\' then !esc else false
 
+/-- the loop of `findGroupBodyEnd` on the rest of the text: number of characters consumed until the
+    parenthesis counter reaches 0, and whether a `|` was seen at depth 1. `none`: the text ends first. -/
+def scanClose : (esc : Bool) → (parens : Nat) → (alt : Bool) → Bytes → Option (Nat × Bool)
+  | _, 0, alt, _ => some (0, alt)
+  | _, _ + 1, _, [] => none
+  | esc, p + 1, alt, c :: cs =>
+    let parens' :=
+      if c == '(' && !esc then p + 2
+      else if c == ')' && !esc then p
+      else p + 1
+    let alt' := alt || (c == '|' && p == 0)
+    (scanClose (nextEsc esc c) parens' alt' cs).map fun (n, a) => (n + 1, a)
+
+/-- `findGroupBodyEnd(input, groupBodyStart)`: index of the last byte of the group body and whether
+    the body has an alternation on its top level. Running off the end is a runtime fault
+    (`input[index]` out of range). -/
 def findGroupBodyEnd (input : Bytes) (bodyStart : Nat) : Except Fault (Nat × Bool) :=
-  findGroupBodyEndAux input (input.length + 2) bodyStart 1 false
+  if bodyStart > input.length then .error .runtime
+  else
+    match scanClose (isEscaped input bodyStart) 1 false (input.drop bodyStart) with
+    | some (n, alt) => .ok (bodyStart + n - 2, alt)
+    | none => .error .runtime
 
 /-- Go slice `s[a:b]`; `none` when out of range -/
 def slice? (s : Bytes) (a b : Nat) : Option Bytes :=
